@@ -1,5 +1,6 @@
 CONSTANTS FlawShallowListFreeze = FALSE
  FlawSharedConstants = FALSE
+ FlawSharedLiterals = FALSE
  FlawInPlaceSort = TRUE
  FlawAppendSharesCapacity = FALSE
  FlawSortedAliasesOrdered = FALSE
